@@ -262,8 +262,10 @@ def _build_pool(K, mutant):
         greater_blk = slicer.extract_block("src/graph.h", r'struct\s+EdgePriorityGreater\s*\{')
         greater_blk, n1 = re.subn(r'\bEdgePriorityLess\(\)\(', 'vf_f_EdgePriorityLess(', greater_blk)
         pool_blk, n2 = re.subn(r'\bEdgePriorityGreater\(\)\(', 'vf_f_EdgePriorityGreater(', pool_struct())
-        if n1 != 1 or n2 != 1:
-            raise slicer.SliceError("L19 expected to fire once in EdgePriorityGreater and once in Pool (fired %d/%d)" % (n1, n2))
+        if n1 > 1 or n2 > 1:
+            raise slicer.SliceError("L19 fired more often than the declared forms allow (%d/%d)" % (n1, n2))
+        if re.search(r'\b[A-Z]\w*\(\)\(', greater_blk + pool_blk):
+            raise slicer.SliceError("a functor temporary `X()(...)` that L19 does not cover remains in the slice")
         cmps = less_blk + "\nstatic EdgePriorityLess vf_f_EdgePriorityLess;\n" + greater_blk + "\nstatic EdgePriorityGreater vf_f_EdgePriorityGreater;\n"
         with open(os.path.join(d, "unit.cc"), "w") as fh:
             fh.write(POOL_UNIT % {"cmps": cmps, "pool": pool_blk, "funcs": "\n\n".join(funcs)})
